@@ -420,6 +420,10 @@ class BaseDomain:
             return _b.getattr(obj, attr)
         if isinstance(obj, ExcValue):
             return _b.getattr(obj, attr)
+        if is_unknown(obj) and attr in ("all", "any", "item"):
+            # a whole-array predicate the model answers with ONE undecided truth value (np.isfinite(A), np.isclose(A, B) ...):
+            # .all() / .any() of it is that same undecided value
+            return lambda *a, **k: obj
         raise Unsupported(f"attribute {attr!r} of {type(obj).__name__}" + (f" at {interp.where(node)}" if node is not None else ""))
 
     def instance_getattr(self, interp, obj, attr, node):
